@@ -294,7 +294,12 @@ func (s *Server) doUpdateOrReplace(ctx context.Context, prefix *gnmi.Path, u *gn
 	jsonVal := u.GetVal().GetJsonVal()
 	if jsonVal != nil {
 		log.Debugf("Processing Json Value in set from base %s: %s", path, string(jsonVal))
-		pathValues, err := plugin.GetPathValues(ctx, prefixPath, jsonVal)
+		// the JSON value is rooted at the node the update names: prefix followed by path
+		jsonBase := path
+		if len(jsonBase) > 1 {
+			jsonBase = strings.TrimSuffix(jsonBase, "/")
+		}
+		pathValues, err := plugin.GetPathValues(ctx, jsonBase, jsonVal)
 		if err != nil {
 			return err
 		}
